@@ -200,6 +200,8 @@ MUTANTS = [
          old="""        self.upgrade_to_exclusive().await;
 
         async move {
+            let _active_computation_guard = active_computation_guard;
+
             // the write batch must not exist across the cancellable await above
             let mut tx = engine.new_write_transaction();
 """,
@@ -207,18 +209,18 @@ MUTANTS = [
         self.upgrade_to_exclusive().await;
 
         async move {
+            let _active_computation_guard = active_computation_guard;
+
 """,
          expect="C05.a/rule1/Snapshot::done_backward_projection"),
     dict(id="C05.a-clean_query-not-guarded", prop="C05", file=CG + "computing.rs",
-         old="""        async move {
-            self.clean_query(clean_edges, new_tfc, timsestamp).await;
+         old="""            self.clean_query(clean_edges, new_tfc, timsestamp).await;
 
             lock_guard.done();
         }
         .guarded()
         .await;""",
-         new="""        async move {
-            self.clean_query(clean_edges, new_tfc, timsestamp).await;
+         new="""            self.clean_query(clean_edges, new_tfc, timsestamp).await;
 
             lock_guard.done();
         }
@@ -1064,6 +1066,12 @@ MUTANTS = [
     dict(id="C06.j-observation-only-for-cycle-members", prop="C06", file=CG + "fast_path.rs",
          old="            && !query_caller.computing().is_in_scc()\n", new="            && query_caller.computing().is_in_scc()\n",
          expect="C06.j/fast_path/no-observation-for-a-caller-on-a-cycle"),
+    dict(id="C04.h-D13-reintroduced-tail-without-the-phase-guard", prop="C04", file=CG + "slow_path.rs",
+         old="            let _active_computation_guard = active_computation_guard;\n", new="",
+         expect="C04.h/reader-phase/guarded-tail-owns-the-phase-guard"),
+    dict(id="C07.h-commit-sets-comitted-before-the-guarded-block", prop="C07", file=CG + "input_session.rs",
+         old="        let engine = self.engine.clone();\n\n        async move {\n            self.comitted = true;\n", new="        let engine = self.engine.clone();\n        self.comitted = true;\n\n        async move {\n",
+         expect="C07.h/InputSession::commit/runs-to-completion"),
     dict(id="C12.k-varint-reader-u128-stops-on-set-bit", prop="C12", file="crates/serialize/src/postcard.rs",
          old="            result |= u128::from(byte & 0x7F) << shift;\n\n            if byte & 0x80 == 0 {",
          new="            result |= u128::from(byte & 0x7F) << shift;\n\n            if byte & 0x80 != 0 {",
